@@ -201,6 +201,7 @@ type poolResult struct {
 	quiescedGets    int64
 	accountings     int
 	discards        int64
+	deadProbes      int64
 }
 
 func runPoolCase(c *checkCtx, cs poolCase) (res poolResult) {
@@ -230,10 +231,31 @@ func runPoolCase(c *checkCtx, cs poolCase) (res poolResult) {
 		sm.Close()
 		fenceN(2)
 	}()
-	if cs.Chaos == "server-close" || cs.Chaos == "all" {
-		// widen the window between Stream.close's state load and its CAS: the peer's close may land there (X15)
+	// probe state for "a stream of an already dead session must not be handed out": the teardown of a chosen client session
+	// is parked (hook) right after its shutdown flag was raised, and GetStream is called in that window
+	var probeTarget atomic.Value // *Session
+	probeParked := make(chan struct{}, 1)
+	probeRelease := make(chan struct{}, 1)
+	{
 		k := newCtl("c15", cs.Seed)
-		k.set(vpStreamCloseLoaded, 80, 40*time.Microsecond, 80)
+		if cs.Chaos == "server-close" || cs.Chaos == "all" {
+			// widen the window between Stream.close's state load and its CAS: the peer's close may land there (X15)
+			k.set(vpStreamCloseLoaded, 80, 40*time.Microsecond, 80)
+		}
+		k.on(vpSessTeardownBegin, func(obj interface{}, n int64) {
+			if ts, _ := obj.(*Session); ts != nil {
+				if want, _ := probeTarget.Load().(*Session); want == ts {
+					select {
+					case probeParked <- struct{}{}:
+					default:
+					}
+					select {
+					case <-probeRelease:
+					case <-time.After(300 * time.Millisecond):
+					}
+				}
+			}
+		})
 		k.install()
 		defer uninstallCtl()
 	}
@@ -487,8 +509,50 @@ func runPoolCase(c *checkCtx, cs poolCase) (res poolResult) {
 								}
 							}
 							sm.RUnlock()
-							victim.Close()
-							res.kills++
+							if peer != nil && rng.Intn(2) == 0 {
+								// make sure the doomed session has idle streams in its pool, then park its teardown and ask for streams
+								var warm []*Stream
+								for i := 0; i < 8*len(sm.pools)*sessionRoundRobinThreshold && len(warm) < 3; i++ {
+									if st, err := sm.GetStream(); err == nil {
+										if st.Session() == peer {
+											warm = append(warm, st)
+										} else {
+											sm.PutBack(st)
+										}
+									}
+								}
+								for _, st := range warm {
+									sm.PutBack(st)
+								}
+								probeTarget.Store(peer)
+								victim.Close()
+								res.kills++
+								select {
+								case <-probeParked:
+									// the session's shutdown flag is raised, its teardown has not run yet
+									atomic.AddInt64(&res.deadProbes, 1)
+									for i := 0; i < 2*len(sm.pools)*sessionRoundRobinThreshold; i++ {
+										st, err := sm.GetStream()
+										if err != nil {
+											continue
+										}
+										if st.Session() == peer {
+											violate("GetStream handed out stream %d of a session that had already been closed (shutdown flag raised before the call)", st.StreamID())
+											break
+										}
+										sm.PutBack(st)
+									}
+								case <-time.After(5 * time.Second):
+								}
+								probeTarget.Store((*Session)(nil))
+								select {
+								case probeRelease <- struct{}{}:
+								default:
+								}
+							} else {
+								victim.Close()
+								res.kills++
+							}
 							waitTeardown(victim, 10*time.Second)
 							if peer != nil {
 								waitUntil(10*time.Second, func() bool { fenceOnce(5 * time.Second); return peer.IsClosed() })
@@ -734,6 +798,7 @@ func checkPool(c *checkCtx) {
 		c.count("round trips that failed (chaos)", res.errors)
 		c.count("fallback reads+writes", int64(res.fallbacks))
 		c.count("sessions killed by the server", int64(res.kills))
+		c.count("GetStream probes inside the window 'session closed, teardown not yet run'", res.deadProbes)
 		c.count("streams obtained in quiesced phases (state rules judged)", res.quiescedGets)
 		c.count("accounting points", int64(res.accountings))
 		hostile := res.partReads + res.unflushed + int64(res.fallbacks) + int64(res.kills)
